@@ -514,6 +514,84 @@ UNTERMINATED_UNIX = [
      "str " + (b"/" + b"p" * 107).hex())]
 
 
+def rand_numeric(r):
+    """One numeric / Unix-path address string with what it denotes: (string, fam, name, printed form)."""
+    k = r.randrange(3)
+    p = rand_port(r)
+    if k == 0:
+        a = rand_a4(r)
+        canon = "[%s]:%d" % (socket.inet_ntop(AF_INET, a), p)
+        return canon.encode(), AF_INET, sockaddr_in(p, a), canon.encode()
+    if k == 1:
+        a = rand_a16(r)
+        f = r.choice([f for f in v6_forms(r, a) if ":" in f])
+        return ("[%s]:%d" % (f, p)).encode(), AF_INET6, sockaddr_in6(p, a), \
+            ("[%s]:%d" % (socket.inet_ntop(AF_INET6, a), p)).encode()
+    path = rand_path(r, r.choice([1, 2, 3, 10, 50, 106, 107, r.randrange(1, 108)]))
+    return path, AF_UNIX, sockaddr_un(path), path
+
+
+def multi_cases(ctx, n):
+    """Histories over several addresses that are alive at the same time (a listening address and a
+    target address, a list of targets, ...): "+<string>" resolves into the next slot, "-<k>" releases
+    slot k.  Shapes: with and without an address resolved and released BEFORE the others; 2..6
+    addresses all held together and then released in any order; releases between resolves (a slot
+    released while others stay); the same address twice; a rejected string in between.  After every
+    step every held address is printed, duplicated, serialised and compared with every other one.
+    Addresses are values: the expected line is put together from the single-address results."""
+    r = ctx.rng
+    out = []
+    for it in range(n):
+        ops, slots, want = [], [], []       # slots: None or (entry text, key)
+
+        def snap():
+            alive = [(i, s) for i, s in enumerate(slots) if s is not None]
+            cmpd = "".join("0" if a[1][1] == b[1][1] else "1" for x, a in enumerate(alive) for b in alive[x + 1:])
+            want.append("[" + "".join("%d=%s " % (i, s[0]) for i, s in alive) + "cmp=" + cmpd + "]")
+
+        def resolve(bad=False, again=None):
+            if bad:
+                ops.append("+" + hx(r.choice([b"[1.2.3.4]:0", b"[::1]:65536", b"[1.2.3]:80", b"/" + b"p" * 108, b"[::g]:1"])))
+                slots.append(None)
+            else:
+                s, fam, nm, printed = again if again is not None else rand_numeric(r)
+                ln = sa_line(fam, SOCK_STREAM, nm)
+                ser = struct.pack("=iiI", fam, SOCK_STREAM, len(nm)) + nm
+                ops.append("+" + hx(s))
+                slots.append(("%s/%s/%s/%s" % (ln, hx(printed), ln, hx(ser)), (fam, nm)))
+                made.append((s, fam, nm, printed))
+            snap()
+
+        def release(k):
+            ops.append("-%d" % k)
+            slots[k] = None
+            snap()
+        made = []
+        shape = it % 4
+        if shape != 3:                       # an address of an earlier phase of the program, already released
+            resolve()
+            release(0)
+        k = r.choice([2, 2, 3, 4, 5, 6])
+        for j in range(k):
+            if shape == 2 and j and r.randrange(3) == 0:
+                alive = [i for i, s in enumerate(slots) if s is not None]
+                if alive:
+                    release(r.choice(alive))
+            if r.randrange(12) == 0:
+                resolve(bad=True)
+            resolve(again=r.choice(made) if made and r.randrange(8) == 0 else None)
+        alive = [i for i, s in enumerate(slots) if s is not None]
+        r.shuffle(alive)
+        for i in alive[:r.randrange(len(alive) + 1)]:      # out-of-order releases; the rest at the end of the case
+            release(i)
+            if r.randrange(4) == 0 and len(slots) < 12:
+                resolve()
+        out.append(("multi " + ",".join(ops), "".join(want)))
+        ctx.count("sock.multi.shape=%d" % shape)
+        ctx.count("sock.multi.addresses=%d" % k)
+    return out
+
+
 def sock_cases(ctx, n):
     r = ctx.rng
     cases, py = [], []
@@ -521,8 +599,10 @@ def sock_cases(ctx, n):
     def add(c, want=None):
         cases.append(c)
         py.append(want)
-    for c in corpus({"resolve", "pp", "ser", "deser", "deserpp", "cmp", "dup", "ensure", "rtpp", "rtser"}):
+    for c in corpus({"resolve", "pp", "ser", "deser", "deserpp", "cmp", "dup", "ensure", "rtpp", "rtser", "multi"}):
         add(c)
+    for c, want in multi_cases(ctx, max(40, n // 10)):
+        add(c, want)
     for s, want in gen_resolve_valid(ctx, n):
         add("resolve " + hx(s), want)
     for s in gen_resolve_hostile(ctx, n // 2):
@@ -588,7 +668,10 @@ def check_sock(ctx):
             "sock_resolve on IPv4/IPv6 literals in all spellings (::, ::ffff:a.b.c.d, upper case, leading zeros), ports "
             "1..65535 and their accepted spellings, Unix paths up to 107 bytes, against the address they denote "
             "(Python struct/socket) and the model; resolve(prettyprint(sa)) == sa, deserialize(serialize(sa)) == sa, "
-            "dup, cmp evaluated on the implementation itself; malformed forms against the model; prettyprint, "
+            "dup, cmp evaluated on the implementation itself; histories over 2..6 addresses alive at the same time (with "
+            "and without an address released earlier in the process, releases in any order, equal addresses, a rejected "
+            "string in between) with print/dup/serialize of every held address and cmp of every pair after every step; "
+            "malformed forms against the model; prettyprint, "
             "deserialize-then-prettyprint and print-then-resolve on addresses of every family and name shape "
             "(AF_UNIX names unterminated, short, over-long; F14 witnesses) against the model")
 
